@@ -794,7 +794,7 @@ def real_fn_instances(fs):
     integer terms n, n-1 occurring together"""
     from .ops import rsqrt, rpowr, rpow
     out, seen, stack = [], set(), list(fs)
-    pows = {}
+    pows, logs_seen = {}, {}
     while stack:
         x = stack.pop()
         i = x.get_id()
@@ -815,7 +815,17 @@ def real_fn_instances(fs):
                 out.append(z3.Implies(b > 0, x > 0))
             elif nm == "rpow" and x.num_args() == 2:
                 pows[i] = x
+            elif nm == "rlog" and x.num_args() == 1 and len(logs_seen) < 8:
+                logs_seen[i] = x
             stack.extend(x.children())
+    logs = [x for x in logs_seen.values()]
+    for i in range(len(logs)):
+        a = logs[i].arg(0)
+        out.append(z3.Implies(a > 1, logs[i] > 0))
+        for j in range(i + 1, len(logs)):
+            b2 = logs[j].arg(0)
+            # log is strictly increasing on the positive reals
+            out.append(z3.Implies(z3.And(a > 0, b2 > 0), z3.And((a < b2) == (logs[i] < logs[j]), (a == b2) == (logs[i] == logs[j]))))
     for p in pows.values():
         b, n = p.arg(0), p.arg(1)
         out.append(z3.Implies(n == 0, p == 1))
